@@ -654,7 +654,7 @@ fn file_hash<H: StreamHasher>(
         FileAccess::Sequential
     };
     let mut file = open(chunk.path, chunk.pos, chunk.len, access)?;
-    let hash = stream_hash::<H>(&mut file, chunk.len, buf_len, progress)?.1;
+    let (read_len, hash) = stream_hash::<H>(&mut file, chunk.len, buf_len, progress)?;
     // A file that has been appended to or truncated since it was scanned is not the file
     // we were asked to hash: the chunk covers other data than intended.
     if let Some(expected_len) = chunk.file_len {
@@ -665,6 +665,21 @@ fn file_hash<H: StreamHasher>(
                 format!(
                     "file length changed from {} to {} since the file was scanned",
                     expected_len.0, actual_len.0
+                ),
+            ));
+        }
+        // The length reported for the files of some special file systems (/proc, /sys) has
+        // nothing to do with the data they deliver. Such a file would be compared by a part
+        // of its data only, and reported with a length that it doesn't have.
+        let chunk_end = chunk.pos.0.saturating_add(chunk.len.0);
+        let expected_read_len = min(chunk_end, expected_len.0).saturating_sub(chunk.pos.0);
+        let has_more_data = chunk_end >= expected_len.0 && file.read(&mut [0u8; 1])? > 0;
+        if read_len.0 != expected_read_len || has_more_data {
+            return Err(io::Error::new(
+                io::ErrorKind::Other,
+                format!(
+                    "the amount of data in the file doesn't match its length, {}",
+                    expected_len.0
                 ),
             ));
         }
